@@ -71,7 +71,7 @@ def reuse_before_extend(ctx, rule='C10.reuse-before-extend'):
     sites = calls_to_fn(ctx.facts, fn, alloc)
     if not sites:
         return [bad(rule, '%s | free set never consulted' % fn.qual, 'the allocation wrapper never asks the free set for pages', where='%s:%d' % (fn.file, fn.line))]
-    adv = stores_to_field(fn, 'Meta', 'num_pages')
+    adv = [(bb, si, where) for bb, si, where, is_add, helper in c02.advance_sites(ctx, fn)]
     f = floor(rule, 'stores advancing the high-water mark', len(adv), 1)
     if f:
         return [f]
@@ -86,13 +86,13 @@ def reuse_before_extend(ctx, rule='C10.reuse-before-extend'):
         none_t = tg.get(0)
         if none_t is None:
             none_t = oth
-        for b2, si, s in adv:
+        for b2, si, where in adv:
             edge = (sbb, none_t)
             if b2 not in fn.reach_from([0], avoid_edges={edge}):
-                res.append(ok(rule, 'the high-water mark is advanced at %s only when the free set returned None' % fn.loc(b2, si), sites=1))
+                res.append(ok(rule, 'the high-water mark is advanced at %s only when the free set returned None' % where, sites=1))
             else:
                 res.append(bad(rule, '%s | file extended although free pages may exist' % fn.qual,
-                               'the high-water mark is advanced at %s on a path that has not seen the free set return None: freed space would never be reused' % fn.loc(b2, si), where=fn.loc(b2, si)))
+                               'the high-water mark is advanced at %s on a path that has not seen the free set return None: freed space would never be reused' % where, where=where))
     return res
 
 
@@ -254,7 +254,7 @@ def delete_walk_guard(ctx, rule='C10.delete-walk-guard'):
     f = floor(rule, 'page frees in the bucket deletion walk', len(frees), 1)
     if f:
         return [f]
-    def direct_flag(l, depth=0):
+    def direct_flag(fn, du, l, depth=0):
         """(adt, field) if bool local l is a (possibly negated) copy of a bool field of a local ADT"""
         while depth < 8:
             depth += 1
@@ -274,20 +274,34 @@ def delete_walk_guard(ctx, rule='C10.delete-walk-guard'):
                 return (last_seg(fs[-1]['adt']) if fs[-1].get('adt') else None, fs[-1].get('name'), fs[-1].get('ty'))
             l = p2['l']
         return None
+    def conds_of(g, b0):
+        out = [(g, g.term(a)) for (a, sx) in g.control_deps_transitive(b0) if g.term(a)['k'] == 'switch']
+        return out
+    from util import all_call_sites
     for bb, t, c in frees:
         badf = set()
         root_tested = False
-        for (a, sx) in fn.control_deps_transitive(bb):
-            at = fn.term(a)
-            if at['k'] != 'switch':
-                continue
+        conds = conds_of(fn, bb)
+
+        def tests_root(cs):
+            for (g, at) in cs:
+                _, atoms = ctx.du(g).slice_operand(at['discr'])
+                if any(x[0] == 'field' and x[1] and last_seg(x[1]) == 'BucketMeta' and x[2] == 'root_page' for x in atoms) and any(x[0] == 'bin' and x[1] in ('Ne', 'Eq', 'Gt') for x in atoms):
+                    return True
+            return False
+        if not tests_root(conds):
+            # the walk may have been extracted: the guard then sits in front of the call of the walk function
+            for (cf, cb, ct) in all_call_sites(ctx.facts, fn):
+                conds += conds_of(cf, cb)
+        for (g, at) in conds:
+            du = ctx.du(g)
             _, atoms = du.slice_operand(at['discr'])
             fields = {(last_seg(x[1]), x[2]) for x in atoms if x[0] == 'field' and x[1]}
             if ('BucketMeta', 'root_page') in fields and any(x[0] == 'bin' and x[1] in ('Ne', 'Eq', 'Gt') for x in atoms):
                 root_tested = True
             dl = op_local(at['discr'])
             if dl is not None:
-                fl = direct_flag(dl)
+                fl = direct_flag(g, du, dl)
                 if fl and fl[0] in ('InnerBucket', 'Node') and fl[2] == 'bool':
                     badf.add((fl[0], fl[1]))
         if badf:
